@@ -207,8 +207,21 @@ impl UnrepairedDatabaseHeader {
             .trailing_region_layout()
             .map(RegionLayout::num_pages)
             .unwrap_or_default();
-        layout.num_full_regions() == self.inner.full_regions
-            && trailing_pages == self.inner.trailing_partial_region_pages
+        self.canonical_region_counts(layout.num_full_regions(), trailing_pages)
+            == self.canonical_region_counts(
+                self.inner.full_regions,
+                self.inner.trailing_partial_region_pages,
+            )
+    }
+
+    // (full regions, pages of the trailing partial region), with a trailing region of the full
+    // size counted as a full region
+    fn canonical_region_counts(&self, full_regions: u32, trailing_pages: u32) -> (u64, u32) {
+        if trailing_pages == self.inner.region_max_data_pages {
+            (u64::from(full_regions) + 1, 0)
+        } else {
+            (u64::from(full_regions), trailing_pages)
+        }
     }
 
     // True if the on-disk primary slot did not verify (its checksum is corrupt). The in-memory
@@ -243,8 +256,15 @@ impl UnrepairedDatabaseHeader {
                 .trailing_region_layout()
                 .map(RegionLayout::num_pages)
                 .unwrap_or_default();
-            let layout_matched = recalculated.num_full_regions() == self.inner.full_regions
-                && trailing_pages == self.inner.trailing_partial_region_pages;
+            // A trailing region that has grown to the full region size describes the same file
+            // as one more full region; growing in place produces the former, recalculating from
+            // the file length the latter
+            let layout_matched = self
+                .canonical_region_counts(recalculated.num_full_regions(), trailing_pages)
+                == self.canonical_region_counts(
+                    self.inner.full_regions,
+                    self.inner.trailing_partial_region_pages,
+                );
             self.inner.set_layout(recalculated);
             let kept_primary = self.select_primary_slot()?;
             return Ok((self.inner, kept_primary && layout_matched));
